@@ -77,9 +77,26 @@ def frame_mesh(h=0.6):
     return v, np.array(out)
 
 
+def sphere_hull(n):
+    from scipy.spatial import ConvexHull
+
+    k = np.arange(n) + 0.5
+    phi, th = np.arccos(1 - 2 * k / n), np.pi * (1 + 5 ** 0.5) * k
+    pts = np.c_[np.cos(th) * np.sin(phi), np.sin(th) * np.sin(phi), np.cos(phi)] * (1.0, 0.9, 1.1)
+    return convex_mesh(pts, [tuple(int(i) for i in t) for t in ConvexHull(pts).simplices])
+
+
+_SPH = {}
+
+
 def meshes():
     M = {}
     M["frame"] = frame_mesh()
+    ang = np.linspace(0, 2 * np.pi, 12, endpoint=False)
+    M["ngon12"] = prism_from_polygon([(np.cos(a), 0.8 * np.sin(a)) for a in ang], [(0, i, i + 1) for i in range(1, 11)], 0.7)   # 24 vertices
+    if 300 not in _SPH:
+        _SPH[300] = sphere_hull(300)
+    M["sphere300"] = _SPH[300]
     M["tetra"] = convex_mesh([(0, 0, 0), (1.3, 0, 0), (0.2, 1.1, 0), (0.3, 0.2, 0.9)], [(0, 1, 2), (0, 1, 3), (0, 2, 3), (1, 2, 3)])
     cv = [(x, y, z) for x in (0, 1.0) for y in (0, 1.2) for z in (0, 0.8)]
     cf = [(0, 1, 3), (0, 3, 2), (4, 6, 7), (4, 7, 5), (0, 4, 5), (0, 5, 1), (2, 3, 7), (2, 7, 6), (0, 2, 6), (0, 6, 4), (1, 5, 7), (1, 7, 3)]
@@ -187,6 +204,8 @@ def run_orient(c):
     v2, f2, perm = variant(v, f, order, flips, c["renum"], c.get("cyc", 0))
     if c.get("unused"):
         v2, f2, perm = add_unused_vertices(v2, f2, perm, c["unused"], c.get("unused_where", "inside"), scale)
+    if c.get("faces_dtype"):   # the index table as a numpy array of a narrow / unsigned / floating type (all hold the indices exactly)
+        f2 = np.asarray(f2).astype(c["faces_dtype"])
     try:
         with common.time_limit(60):
             if c.get("hull"):
@@ -554,6 +573,15 @@ def enumerate_cases(tier):
             where = [i for i in range(N) if i not in used]
             cases.append({"part": "orient", "mesh": name, "order": list(range(nf)), "flipmask": 5 if sum(used) % 3 == 0 else 0, "renum": list(range(nv)),
                           "unused": where, "unused_where": "inside" if sum(used) % 2 else "far", "field": sum(used) % 7 == 0, "full": True})
+    # index tables in every integer width that can hold them (and as floats), on meshes with 24 and 300 vertices
+    for name, dts in (("ngon12", ("uint8", "int8", "int16", "uint16", "int32", "uint32", "int64", "uint64", "float32", "float64")),
+                      ("sphere300", ("int16", "uint16", "int32", "uint32", "float32"))):
+        v, f = M[name]
+        nf, nv = len(f), len(v)
+        for dt in dts:
+            for mask in (0, 1, (1 << nf) - 1) if name == "ngon12" else (0, 5):
+                cases.append({"part": "orient", "mesh": name, "order": list(range(nf)), "flipmask": mask, "renum": list(range(nv)),
+                              "faces_dtype": dt, "field": True, "full": name == "ngon12"})
     for ext in (((0, 0, 0), (1.0, 1.2, 0.8)), ((0, -0.6, -0.4), (0.7, 0.6, 0.4))):
         for via in ("from_mesh", "from_triangles"):
             for shuffle in (False, True):
